@@ -27,6 +27,10 @@ def _np_if(x, flag):
 
 def _wells(op, key="wells", flag="wnp"):
     w = op[key]
+    if isinstance(w, str) and op.get("wstr_np") and key == "wells":
+        import numpy as np
+
+        return np.str_(w)  # a single id as it comes out of `labware.wells[r, c]`
     if op.get("wtuple") and key == "wells" and isinstance(w, list) and w and not isinstance(w[0], list):
         return tuple(w)
     return _np_if(w, op.get(flag, False))
@@ -45,6 +49,10 @@ def _vols(op, key="volumes", flag="vnp"):
     vt = op.get("vtype")
     if vt == "int":
         return _np_if(_as_ints(v), op.get(flag, False))
+    if vt == "0d" and not isinstance(v, list):
+        import numpy as np
+
+        return np.array(float(v))  # a 0-d array (e.g. `volumes.max()` of a masked selection, `np.asarray(5.0)`)
     if vt in ("float32", "int64", "npscalar", "uint8", "uint16"):
         import numpy as np
 
